@@ -879,6 +879,8 @@ def make_app(fn: str, args, kw=None) -> T:
     kw = dict(kw or {})
     if fn in ("numpy.square",) and len(args) == 1:
         return mul(args[0], args[0])
+    if set(kw) == {"out"} and fn in ("numpy.negative", "numpy.add", "numpy.subtract", "numpy.multiply"):
+        kw = {}       # the *value* of the call is the same with or without an output buffer (the write is the ownership analysis' business)
     if fn in ("numpy.negative",) and len(args) == 1 and not kw:
         return neg(args[0])
     if fn in ("numpy.add", "numpy.subtract", "numpy.multiply") and len(args) == 2 and not kw:
